@@ -110,9 +110,10 @@ class C11(Check):
         for name, data in files.items():
             if name.endswith(".agp"):
                 out_rows += [rows for _n, rows in c03_cli.parse_agp_rows(data.decode())]
-        nin = sum(1 for _, rows in c03_cli.INP for r in rows if r[0] == "F")
+        inp = pv.tuplify(case[2]) if len(case) > 2 else c03_cli.INP
+        nin = sum(1 for _, rows in inp for r in rows if r[0] == "F")
         nout = sum(1 for rows in out_rows for r in rows if r[0] == "F")
-        j_in = junction_set(rows for _, rows in c03_cli.INP)
+        j_in = junction_set(rows for _, rows in inp)
         j_out = junction_set(out_rows)
         want = (nout - nin, len(j_in - j_out), len(j_out - j_in))
         if (cuts, breaks, joins) != want:
